@@ -7,6 +7,7 @@
 package main
 
 import (
+	"errors"
 	"bytes"
 	"crypto/sha256"
 	"encoding/json"
@@ -73,6 +74,36 @@ func validB(k int, data []byte) string {
 	return ""
 }
 
+// failSource delivers its data on the first (hashing) pass and fails half-way through the
+// second (copy) pass: a writer that finishes with an error. Its content is always fresh
+// (never stored before), so the only output file it can touch is its own.
+type failSource struct {
+	r     *bytes.Reader
+	seeks int
+	pos   int64
+}
+
+func (s *failSource) Seek(off int64, whence int) (int64, error) {
+	s.seeks++
+	s.pos = 0
+	return s.r.Seek(off, whence)
+}
+
+func (s *failSource) Read(p []byte) (int, error) {
+	if s.seeks >= 2 {
+		half := int64(s.r.Size() / 2)
+		if s.pos >= half {
+			return 0, errors.New("injected source failure in the copy pass")
+		}
+		if int64(len(p)) > half-s.pos {
+			p = p[:half-s.pos]
+		}
+	}
+	n, err := s.r.Read(p)
+	s.pos += int64(n)
+	return n, err
+}
+
 // slowSource delays between the chunks that Put reads.
 type slowSource struct {
 	*bytes.Reader
@@ -103,6 +134,7 @@ type workerResult struct {
 	HitsA      int64            `json:"hits_a"`
 	MissA      int64            `json:"miss_a"`
 	MissAEarly int64            `json:"miss_a_before_any_put_completed"`
+	FailedPuts int64            `json:"puts_with_a_failing_source"`
 	HitsB      int64            `json:"hits_b"`
 	MissB      int64            `json:"miss_b"`
 	Hook       map[string]int64 `json:"hook"`
@@ -177,6 +209,15 @@ func worker() {
 					} else {
 						v := wid*1_000_000 + atomic.AddInt64(&serial, 1)
 						data, id = contentB(k-nA, v), idB(k-nA)
+					}
+					if !isA && rng.Intn(12) == 0 {
+						// a writer that fails: the id keeps whatever a successful Put stored
+						_, _, ferr := c.Put(id, &failSource{r: bytes.NewReader(data)})
+						if ferr == nil {
+							viol("failing-source-accepted", fmt.Sprintf("Put(id %d) returned nil although its source failed in the copy pass", k))
+						}
+						atomic.AddInt64(&res.FailedPuts, 1)
+						continue
 					}
 					t0 := vlib.MonoNow()
 					var err error
@@ -293,7 +334,7 @@ func main() {
 		return
 	}
 	vlib.Main("C11", "exploration", 10*time.Minute, func(r *vlib.Run) {
-		r.Rule("rounds; each round = fresh cache directory shared by P processes (3-8) x G goroutines (4-8) released together, each doing N operations on 24 identical-content ids (sizes 0..1MiB, half of the Puts from a slow source) and 8 differing-content ids (64B..200KiB): 50% Put/PutBytes, 50% GetBytes/GetFile, with seeded delays at the cache.* hook points. Evaluations = operations executed; distinct non-trivial = lookups that overlapped in time with a Put of the same id in another goroutine or process (counted from the merged op log), plus rounds.")
+		r.Rule("rounds; each round = fresh cache directory shared by P processes (3-8) x G goroutines (4-8) released together, each doing N operations on 24 identical-content ids (sizes 0..1MiB, half of the Puts from a slow source) and 8 differing-content ids (64B..200KiB): 50% Put/PutBytes, 50% GetBytes/GetFile, with seeded delays at the cache.* hook points. Evaluations = operations executed; distinct non-trivial = lookups that overlapped in time with a Put of the same id in another goroutine or process (counted from the merged op log), plus rounds. One in twelve Puts of a differing-content id uses a source that fails half-way through the copy pass (fresh content), and before the final sweep one such failing Put is made on every stored differing-content id: writers that finish with an error must not hide what was stored.")
 		r.Assume("Trim is not part of this workload; flag 'Put completed' is set after Put returned and sampled before the lookup is invoked (client boundary)")
 		base := vlib.Scratch()
 		rounds := r.Pick(12, 90)
@@ -371,6 +412,7 @@ func main() {
 				tot.HitsA += wr.HitsA
 				tot.MissA += wr.MissA
 				tot.MissAEarly += wr.MissAEarly
+				tot.FailedPuts += wr.FailedPuts
 				tot.HitsB += wr.HitsB
 				tot.MissB += wr.MissB
 				for k, v := range wr.Hook {
@@ -416,8 +458,18 @@ func main() {
 					}
 				}
 			}
-			// quiescent final sweep in this (fresh) process
+			// quiescent final sweep in this (fresh) process; first one more writer that fails on
+			// every stored differing-content id: "once all writers have finished" includes writers
+			// that finished with an error, and what they failed to store must not hide what was stored
 			c, _ := cache.Open(dir)
+			for k := nA; k < nA+nB; k++ {
+				if flags.Load(k) == 1 {
+					if _, _, err := c.Put(idB(k-nA), &failSource{r: bytes.NewReader(contentB(k-nA, int64(900_000_000+round)))}); err == nil {
+						r.Violation(fmt.Sprintf("failing-source-accepted round=%d", round), "Put returned nil although its source failed in the copy pass", nil)
+					}
+					r.Count("failing_puts_before_the_final_sweep", 1)
+				}
+			}
 			for k := 0; k < nA+nB; k++ {
 				if flags.Load(k) != 1 {
 					continue
@@ -461,6 +513,7 @@ func main() {
 		r.Set("hits_identical_content_ids", tot.HitsA)
 		r.Set("misses_identical_content_ids", tot.MissA)
 		r.Set("misses_identical_before_any_put_completed", tot.MissAEarly)
+		r.Set("puts_with_a_failing_source_during_the_rounds", tot.FailedPuts)
 		r.Set("hits_differing_content_ids", tot.HitsB)
 		r.Set("misses_differing_content_ids", tot.MissB)
 		r.Set("hook_hits", hook)
